@@ -1,5 +1,120 @@
-Require Import V.Lib.Base V.C07.Model.
+(* C07 - the smodels reader accepts exactly well-formed input and never alters a number.
+   Model: V.C07.Model (SmodelsInput over the abstract stream of C09/Spec.v, cEdge = cHeuristic = false).
+   Spec : V.C07.Spec  (laid-out programs: render / layout_ok / in_range / denote).                          *)
+Require Import V.Lib.Base V.Lib.Calls V.Lib.Dec V.C09.Spec V.Gen.Consts V.Gen.Consts_C07.
+Require Import V.C07.Model V.C07.Spec V.C07.ProofsLex V.C07.ProofsGram V.C07.ProofsTop.
 Local Open Scope Z_scope.
-Example c07_smoke : run_case [4096; 0; 0] = [0; 1; 1].
+
+(* Every text that follows the smodels layout (any whitespace / LF / CRLF between tokens, ANY non-negative numbers in
+   the fields) and whose numbers all fit their fields is accepted and delivers exactly the denoted calls. *)
+Theorem c07_complete : forall (o : opts) (p : lprog),
+  layout_ok p = true -> in_range (claspExt o) p = true -> read_smodels o (render p) = (denote p, Ok tt).
+Proof. exact complete. Qed.
+Print Assumptions c07_complete.
+
+(* ... and if some number does not fit its field (or an extension rule is used without claspExt, or neg > len, or a
+   second step in a non-incremental program) the reader reports an error - whatever the magnitude (also >= 2^64). *)
+Theorem c07_rejects : forall (o : opts) (p : lprog),
+  layout_ok p = true -> in_range (claspExt o) p = false -> exists cs ln, read_smodels o (render p) = (cs, Err ln).
+Proof. exact rejects. Qed.
+Print Assumptions c07_rejects.
+
+(* the instances named in the property: a weight, a bound, a symbol-table atom, a compute atom, an external atom that does
+   not fit => error (never a wrapped or negative value); neg > len => error *)
+Theorem c07_rejects_weight : forall (o : opts) p s tw h bnd b wts w,
+  layout_ok p = true -> In s (p_steps p) -> In (RWeight tw h bnd b wts) (s_rules s) -> In w wts -> INT_MAX < snd w ->
+  exists cs ln, read_smodels o (render p) = (cs, Err ln).
+Proof.
+  intros o p s tw h bnd b wts w Hl Hs Hr Hw Hbig. apply rejects; [assumption|].
+  eapply in_range_rule_false; [eassumption | eassumption|]. cbn [rule_in].
+  rewrite (forallb_false_in weight_in wts w Hw); [apply andb_false_r|]. unfold weight_in. apply Z.leb_gt. exact Hbig.
+Qed.
+Print Assumptions c07_rejects_weight.
+
+Theorem c07_rejects_bound : forall (o : opts) p s tw h bnd b wts,
+  layout_ok p = true -> In s (p_steps p) -> INT_MAX < snd bnd ->
+  In (RWeight tw h bnd b wts) (s_rules s) \/ In (RCard tw h b bnd) (s_rules s) ->
+  exists cs ln, read_smodels o (render p) = (cs, Err ln).
+Proof.
+  intros o p s tw h bnd b wts Hl Hs Hbig Hr. apply rejects; [assumption|].
+  assert (Hw : weight_in bnd = false) by (unfold weight_in; apply Z.leb_gt; exact Hbig).
+  destruct Hr as [Hr|Hr]; (eapply in_range_rule_false; [eassumption | eassumption|]); cbn [rule_in]; rewrite Hw;
+    rewrite ?andb_false_r; reflexivity.
+Qed.
+Print Assumptions c07_rejects_bound.
+
+Theorem c07_rejects_neg_gt_len : forall (o : opts) p s tw h b,
+  layout_ok p = true -> In s (p_steps p) -> In (RBasic tw h b) (s_rules s) -> Z.of_nat (length (b_atoms b)) < snd (b_neg b) ->
+  exists cs ln, read_smodels o (render p) = (cs, Err ln).
+Proof.
+  intros o p s tw h b Hl Hs Hr Hbig. apply rejects; [assumption|].
+  eapply in_range_rule_false; [eassumption | eassumption|]. cbn [rule_in]. unfold body_in.
+  assert (E : (snd (b_neg b) <=? Z.of_nat (length (b_atoms b))) = false) by (apply Z.leb_gt; exact Hbig).
+  rewrite E. rewrite ?andb_false_r. reflexivity.
+Qed.
+Print Assumptions c07_rejects_neg_gt_len.
+
+Theorem c07_rejects_atoms : forall (o : opts) p s a, layout_ok p = true -> In s (p_steps p) -> atomMax < snd a ->
+  (exists y, In y (s_syms s) /\ y_atom y = a) \/ In a (s_bplus s) \/ In a (s_bminus s) \/
+  (exists w l z, s_ext s = Some (w, l, z) /\ In a l) ->
+  exists cs ln, read_smodels o (render p) = (cs, Err ln).
+Proof.
+  intros o p s a Hl Hs Hbig Hwhere. apply rejects; [assumption|]. eapply in_range_step_false; [eassumption|].
+  assert (Ha : atom_in a = false) by (unfold atom_in; apply andb_false_intro2; apply Z.leb_gt; exact Hbig).
+  unfold step_in. destruct Hwhere as [(y & Hy & Ey) | [Hb | [Hb | (w & l & z & Ee & Hb)]]].
+  - rewrite (forallb_false_in (fun y => atom_in (y_atom y)) (s_syms s) y Hy) by (rewrite Ey; exact Ha). rewrite ?andb_false_r. reflexivity.
+  - rewrite (forallb_false_in atom_in _ a Hb Ha). rewrite ?andb_false_r. reflexivity.
+  - rewrite (forallb_false_in atom_in _ a Hb Ha). rewrite ?andb_false_r. reflexivity.
+  - rewrite Ee. cbn [ext_in]. rewrite (forallb_false_in atom_in _ a Hb Ha). rewrite ?andb_false_r. reflexivity.
+Qed.
+Print Assumptions c07_rejects_atoms.
+
+(* clasp-extension rule types 90 / 91 / 92 are refused unless extensions were enabled *)
+Theorem c07_ext_gating : forall (o : opts) p s rl, claspExt o = false ->
+  layout_ok p = true -> In s (p_steps p) -> In rl (s_rules s) ->
+  (rule_type rl = Sm_ClaspIncrement \/ rule_type rl = Sm_ClaspAssignExt \/ rule_type rl = Sm_ClaspReleaseExt) ->
+  exists cs ln, read_smodels o (render p) = (cs, Err ln).
+Proof.
+  intros o p s rl Hext Hl Hs Hr Hty. apply rejects; [assumption|]. rewrite Hext.
+  eapply in_range_rule_false; [eassumption | eassumption|].
+  destruct rl as [tw h b|ch tw nw hs b|tw h b bnd|tw h bnd b wts|tw bnd b wts|tw z|tw a v|tw a|t]; cbn [rule_type rule_in] in *; try reflexivity;
+    try destruct ch; destruct Hty as [E|[E|E]]; vm_compute in E; discriminate.
+Qed.
+Print Assumptions c07_ext_gating.
+
+(* whatever is accepted among the laid-out texts is in range and delivers exactly the denoted rules, outputs,
+   integrity constraints for B+ / B-, externals, in order.
+   PARTIAL: stated for texts that follow the layout (render p); that an ARBITRARY accepted byte string is such a text
+   is not proved here (checked by the correspondence runs and the independent python reference reader). *)
+Theorem c07_denotes_partial : forall (o : opts) p cs,
+  layout_ok p = true -> read_smodels o (render p) = (cs, Ok tt) -> in_range (claspExt o) p = true /\ cs = denote p.
+Proof. exact denotes. Qed.
+Print Assumptions c07_denotes_partial.
+
+(* the fuel of the model's loops is never exhausted on these texts *)
+Theorem c07_fuel : forall (o : opts) p cs, layout_ok p = true -> read_smodels o (render p) <> (cs, Fuel).
+Proof. exact never_fuel. Qed.
+Print Assumptions c07_fuel.
+
+(* ---- non-vacuity: a concrete laid-out program (CRLF and wild whitespace included) ---- *)
+Definition sp := [32]. Definition nl := [10]. Definition crlf := [13; 10].
+Definition ex_step : lstep :=
+  mkstep [RBasic [] (sp, 1) (mkbody sp (sp, 1) [(sp, 2); ([32; 9], 3)]);
+          RWeight crlf (sp, 4) (sp, 2147483647) (mkbody sp (sp, 0) [(sp, 1); (sp, 2)]) [(sp, 0); (sp, 2147483647)];
+          RMin nl (sp, 0) (mkbody sp (sp, 1) [(sp, 5)]) [(nl, 7)];
+          RMulti true nl sp [(sp, 6); (sp, 7)] (mkbody sp (sp, 0) [])]
+         nl [mksym (nl, 1) 32 [97; 40; 34; 41]; mksym (crlf, 2147483647) 32 []] nl
+         [] [(nl, 3)] nl [] [] nl (Some (nl, [(nl, 2)], nl)) (nl, 1).
+Definition ex_prog : lprog := mkprog [ex_step] nl.
+Example c07_ex_layout : layout_ok ex_prog = true /\ in_range false ex_prog = true.
+Proof. split; vm_compute; reflexivity. Qed.
+Example c07_ex_accepts : read_smodels (mkopts false false) (render ex_prog) = (denote ex_prog, Ok tt).
 Proof. vm_compute. reflexivity. Qed.
-Print Assumptions c07_smoke.
+(* the same program with one weight pushed to 2^32-1 / 2^64+1 is laid out correctly, out of range, and rejected *)
+Definition ex_bad (w : Z) : lprog :=
+  mkprog [mkstep [RWeight [] (sp, 4) (sp, 1) (mkbody sp (sp, 0) [(sp, 1)]) [(sp, w)]] nl [] nl [] [] nl [] [] nl None (nl, 1)] nl.
+Example c07_ex_rejects : layout_ok (ex_bad 4294967295) = true /\ in_range false (ex_bad 4294967295) = false /\
+  snd (read_smodels (mkopts false false) (render (ex_bad 4294967295))) = Err 1 /\
+  snd (read_smodels (mkopts false false) (render (ex_bad 18446744073709551617))) = Err 1.
+Proof. repeat split; vm_compute; reflexivity. Qed.
+Print Assumptions c07_ex_accepts.
